@@ -156,6 +156,7 @@ def run(ctx):
     for t in ("payload.raw", "payload.one", "payload.many", "reply.on.always", "reply.on.success", "reply.on.error", "reply.on.always.both"):
         if ctx.tags.get(t, 0) == 0:
             ctx.violation("TAG", [t], "corpus", f"a corpus program exercising {t}", "none", "corpus adequacy")
+    C.corpus_adequacy(ctx, enforce=False)
     ctx.floor("C08.builder", 100)
     ctx.extra["SubMsg_fields_parsed_from_dependency"] = submsg_fields()
     return check.finish(
